@@ -118,7 +118,7 @@ Inductive disp :=
          arguments at positions perm (the first one is `self`) and, if kw, the caller's keywords *)
   | DRaise (e : exn)
   | DPlainTorch          (* no argument overrides: torch's own implementation runs *)
-  | DForeign.            (* an unrelated class's __torch_function__ is consulted first *)
+  | DForeign.            (* only unrelated classes override: no code of the library is involved *)
 
 Fixpoint seq_from (i n : nat) : list nat :=   (* i, i+1, ..., i+n-1 *)
   match n with 0 => [] | S k => i :: seq_from (S i) k end.
@@ -157,13 +157,23 @@ Definition torch_function (w : world) (cls f : string) (types : list argk) (args
   | Some a => run_branch w (if isinstance w a cls then tf_inst (w_tf w) else tf_other (w_tf w)) cls f types (List.length args)
   end.
 
-(* torch.f applied to args: the first overriding argument's class handles the call (LinearOperator's
-   handler never returns NotImplemented, so no second handler is ever consulted) *)
+(* torch.f applied to args.  torch consults the __torch_function__ of the overloaded arguments in order until
+   one does not return NotImplemented.  LinearOperator's handler never returns NotImplemented (it returns a
+   value or raises), so the first operator in that order decides.  A foreign handler that comes earlier is
+   assumed to DECLINE (return NotImplemented) -- if it handles the call itself no code of the library runs. *)
+Fixpoint first_op (ov : list (nat * argk)) : option string :=
+  match ov with
+  | [] => None
+  | (_, KOp c) :: _ => Some c
+  | _ :: r => first_op r
+  end.
 Definition dispatch (w : world) (f : string) (args : list argk) : disp :=
   match overloaded w args with
   | [] => DPlainTorch
-  | (_, KOp c) :: _ as ov => torch_function w c f (map snd ov) args
-  | _ => DForeign
+  | ov => match first_op ov with
+          | Some c => torch_function w c f (map snd ov) args
+          | None => DForeign
+          end
   end.
 
 (* ------------------------------------------------------------------------------------------ *)
@@ -258,6 +268,10 @@ Definition method_sem (m : string) : option sem :=
   if String.eqb m "__matmul__" then Some (SemBin SMatmul SelfLeft false) else
   if String.eqb m "__rmatmul__" then Some (SemBin SMatmul SelfRight false) else
   if String.eqb m "__truediv__" then Some (SemBin SDiv SelfLeft false) else
+  (* names introduced by proposed_fixes/C15-second-arg-keywords.diff (absent on the pinned tree):
+     reflected handlers that accept the torch function's keyword and apply it to `self` *)
+  if String.eqb m "_add_second_arg" then Some (SemBin SAdd SelfRight true) else
+  if String.eqb m "_isclose_second_arg" then Some (SemBin SIsclose SelfRight true) else
   if String.eqb m "abs" then Some (SemFun "abs") else
   if String.eqb m "cholesky" then Some (SemFun "linalg.cholesky") else
   if String.eqb m "clone" then Some (SemFun "clone") else
@@ -325,8 +339,10 @@ Inductive verdict :=
   | VDefect           (* wrong operand order / wrong operation even without keywords *)
   | VUnknown.
 
-(* the method described by [s] is called with self = caller's argument perm[0] and
-   other = caller's argument perm[1]; the caller meant  e(args[0], args[1], kw on args[1]) *)
+(* The method described by [SemBin o sd kwacc] returns  o(L, R)  with the keyword (if it accepts one)
+   applied to R, where (L, R) = (self, other) [SelfLeft] or (other, self) [SelfRight].
+   It is called with self = caller's argument perm[0] and other = caller's argument perm[1];
+   the caller meant  o'(args[0], args[1])  with the keyword (if f has one) applied to args[1]. *)
 Definition sem_verdict (s : sem) (perm : list nat) (e : esem) : verdict :=
   match s, e with
   | SemFun t, EFunF t' =>
@@ -340,15 +356,11 @@ Definition sem_verdict (s : sem) (perm : list nat) (e : esem) : verdict :=
       | [pself; pother] =>
           let left := match sd with SelfLeft => pself | SelfRight => pother end in
           let right := match sd with SelfLeft => pother | SelfRight => pself end in
-          let straight := Nat.eqb left 0 && Nat.eqb right 1 in
-          let swapped := Nat.eqb left 1 && Nat.eqb right 0 in
-          if negb (straight || (swapped && comm o)) then VDefect
-          else if negb haskw then VOk
-          else match sd, kwacc with
-               | SelfRight, true => VUnknown
-               | _, false => VOkNoKw
-               | SelfLeft, true => if straight then VOk else VDefectKw   (* keyword goes to `other` *)
-               end
+          if Nat.eqb left 0 && Nat.eqb right 1 then
+            (if haskw && negb kwacc then VOkNoKw else VOk)
+          else if Nat.eqb left 1 && Nat.eqb right 0 && comm o then
+            (if negb haskw then VOk else if kwacc then VDefectKw else VOkNoKw)
+          else VDefect
       | _ => VDefect
       end
   | _, _ => VDefect
@@ -406,11 +418,13 @@ Definition den_semop (o : semop) (x y : R) (k : kwv A) (xvec : bool) : R :=
 (* what the caller of torch.f(x0, x1, kw) means *)
 Definition den_expected (o : semop) (x0 x1 : R) (k : kwv A) (x0vec : bool) : R := den_semop o x0 x1 k x0vec.
 
-(* what a method with descriptor (o, sd) returns for (self, other, kw) *)
-Definition den_method (o : semop) (sd : side) (self other : R) (k : kwv A) (othervec : bool) : R :=
+(* what a method with descriptor (o, sd, kwacc) returns for (self, other, kw): o(L, R) with the keyword
+   applied to R; a method that does not accept the keyword is only ever given none *)
+Definition den_method (o : semop) (sd : side) (kwacc : bool) (self other : R) (k : kwv A) (othervec : bool) : R :=
+  let k' := if kwacc then k else kw_none A in
   match sd with
-  | SelfLeft => den_semop o self other k false
-  | SelfRight => den_semop o other self (kw_none A) othervec   (* reflected methods take no keyword *)
+  | SelfLeft => den_semop o self other k' false
+  | SelfRight => den_semop o other self k' othervec
   end.
 
 (* ---- bodies of the delegating methods.  Callee contracts: a call recv.m(args) denotes
@@ -451,7 +465,8 @@ Fixpoint den_ex (en : env) (e : ex) {struct e} : option R :=
   | ECall recv m [a] kw =>
       let avec := match a with EParam p => strmem p (e_vec en) | _ => false end in
       match method_sem m, den_ex en recv, den_ex en a, kw_of (den_kw kw) with
-      | Some (SemBin o sd _), Some x, Some y, Some k => Some (den_method o sd x y k avec)
+      | Some (SemBin o sd kwacc), Some x, Some y, Some k =>
+          if kwacc || kw_absent k then Some (den_method o sd kwacc x y k avec) else None   (* TypeError: unexpected keyword *)
       | _, _, _, _ => None
       end
   | ETorch f [a; b] kw =>
